@@ -87,6 +87,7 @@ def run(scn, sb):
         n_extra = 3 if u < 0.55 else (int(r.integers(20, 60)) if u < 0.7 else int(r.integers(257, 400)))
         if scn.get('tier') == 'thorough' and u > 0.985:
             n_extra = 65536 + int(r.integers(1, 50))
+        n_extra = int(scn.get('force_n_extra', n_extra))
         extra = r.uniform(0, 9, size=(Xa.shape[0], n_extra))
         Xb = np.hstack([Xa[:, keep], extra])
         gb = [ga[i] for i in keep] + ['newgene_%d' % i for i in range(n_extra)]
